@@ -164,7 +164,9 @@ fn check_set_graph<T: DSet>(ctx: &mut Ctx, name: &str, t: &T, s: &RS, case: &Val
         let mut bad: Option<String> = None;
         for seed in 1..=n {
             let e: Vec<usize> = reach(s, &(0..=dim).collect::<Vec<_>>(), seed).into_iter().collect();
-            if t.full_orbit(seed) != e {
+            let mut fo = t.full_orbit(seed);
+            fo.sort();
+            if fo != e {
                 bad = Some(format!("full_orbit({}) = {:?}, expected {:?}", seed, t.full_orbit(seed), e));
             }
             for i in 0..=dim {
@@ -210,7 +212,10 @@ fn check_set_graph<T: DSet>(ctx: &mut Ctx, name: &str, t: &T, s: &RS, case: &Val
             ctx.ops(1);
             match ctx.guard(|| t.orbit(idcs.clone(), seed)) {
                 Ok(o) => {
-                    if o != e {
+                    // compared as a duplicate-free set: the statement does not fix an order
+                    let mut os = o.clone();
+                    os.sort();
+                    if os != e || os.windows(2).any(|p| p[0] == p[1]) {
                         fail(ctx, "orbit", case, format!("{}: orbit({:?},{}) = {:?}, expected {:?}", name, idcs, seed, o, e), w);
                     }
                 }
@@ -300,7 +305,8 @@ fn check_set_tables<T: DSet>(ctx: &mut Ctx, name: &str, t: &T, s: &RS, case: &Va
                 let exp_r = if inr { Some(s.r(i, j, d - 1)) } else { None };
                 match ctx.guard(|| (t.r(i, j, d), t.m(i, j, d).is_some())) {
                     Ok((g, m_some)) => {
-                        if g != exp_r || m_some != inr {
+                        // m of a plain set has no meaning beyond "None outside the range"
+                        if g != exp_r || (m_some && !inr) {
                             fail(ctx, "r", case, format!("{}: r({},{},{}) = {:?}, expected {:?}; m is_some = {}", name, i, j, d, g, exp_r, m_some), w);
                         }
                     }
